@@ -253,7 +253,8 @@ def r4_bare_continuation(ctx):
     head = heads[0]
     entry, cut = graph.region_of_loop(g, head)
     dom = ctx.dom(g, entry, cut)
-    consts_ = {d.name: d.value.value for d in rd.defs if d.kind == 'assign' and isinstance(d.value, ast.Constant) and isinstance(d.value.value, str) and d.name.isupper() and len(rd.defs_of(d.name)) == 1}
+    from .c13 import _state_constants
+    consts_ = _state_constants(rd, f.module)      # local or module-level label names
 
     def val(e):
         return consts_.get(e.id) if isinstance(e, ast.Name) else (e.value if isinstance(e, ast.Constant) else None)
